@@ -21,6 +21,7 @@ ASSUMPTIONS = [
     "Earth radius 6378.1 km (astropy nominal) and a spherical Earth, as documented",
     "azimuth convention of the trajectory about the line of sight: phi=0 tilts away from the local vertical (the documented emergence formula)",
     "either-side band of 1e-9 (cosine) / 1e-7 deg at the two cuts of the validity mask; between lattice points nothing is claimed",
+    "the random numbers may arrive as bool, integer, single or double precision arrays of either byte order (judged on the values those arrays hold); half precision is outside: the tree forms 2*pi*u etc. in the caller's precision, so for float16 corners the spot is consistent to ~4e-7 only, which is below the precision of the numbers handed in and not claimed as a defect",
 ]
 
 S_ALPHABET = [0.0, 1e-6, 1.0, 10.0, 100.0, 1000.0]
@@ -44,17 +45,22 @@ def make_geom(gc):
     return RegionGeom(cfg)
 
 
-def judge(gc, u, s_list=S_ALPHABET, g=None):
+def judge(gc, u, s_list=S_ALPHABET, g=None, form=None):
     """u: array (4, N). returns (violations [(clause, idx, expected, observed, s)], info dict). g: an existing geometry
-    object to throw on (history clause); a fresh one otherwise."""
+    object to throw on (history clause); a fresh one otherwise. form: dtype of the array handed to throw() -- the numbers
+    are first rounded to that dtype, so the reference sees exactly the values the code is given."""
     u = np.asarray(u, dtype=np.float64)
-    u_in = u.copy()
+    u_pass = u
+    if form is not None:
+        u_pass = u.astype(form)
+        u = u_pass.astype(np.float64)
+    u_in = u_pass.copy()
     if g is None:
         g = make_geom(gc)
     out = []
     try:
         with np.errstate(all="ignore"):
-            g.throw(u)
+            g.throw(u_pass)
     except Exception as ex:
         return [("throw_no_exception", 0, "a thrown batch", f"{type(ex).__name__}: {str(ex)[:100]}", None)], dict(L=np.zeros(u.shape[1]), mask=np.zeros(u.shape[1], bool), beta=np.zeros(u.shape[1]), lat=np.zeros(u.shape[1]), lon=np.zeros(u.shape[1]), rowfin=np.zeros(u.shape[1], bool))
     N = u.shape[1]
@@ -116,7 +122,7 @@ def judge(gc, u, s_list=S_ALPHABET, g=None):
     rowfin = np.isfinite(L) & np.isfinite(lat) & np.isfinite(lon) & np.isfinite(beta)
     for i in np.where(mask & ~rowfin)[0]:
         out.append(("nonfinite_never_kept", i, False, True, None))
-    if u.tobytes() != u_in.tobytes():
+    if u_pass.tobytes() != u_in.tobytes():
         out.append(("inputs_unmodified", 0, "unchanged", "changed", None))
     # along the trajectory
     kept = np.where(mask)[0]
@@ -201,6 +207,21 @@ def run(ctx):
     ctx.cov["alphabet"] = {"u_values_per_dimension": int(m), "points_per_configuration": int(U.shape[1]), "configurations": len(cfgs), "s": S_ALPHABET}
     face = ((U == 0) | (U == 1)).astype(int)
     s_list = S_ALPHABET if tier == "thorough" else [0.0, 1e-6, 10.0, 1000.0]
+    # the same numbers handed in as integer (the 16 corners of the cube, as itertools.product(range(2)) builds them),
+    # single-precision and byte-swapped arrays
+    corners = np.array(list(itertools.product([0, 1], repeat=4))).T
+    m32 = u_alphabet(6)
+    U32 = np.array(list(itertools.product(m32, repeat=4))).T
+    for gc in (geom_cfg(525.0, 0.2, 0.3), geom_cfg(33.0, -math.pi / 4, math.pi), geom_cfg(2000.0, 0.0, 0.0, 20.0, 10.0, 360.0)):
+        for form, Uf in (("i8", corners), ("i4", corners), ("u1", corners), ("?", corners), ("f4", U32), (">f8", U32), (">f4", U32)):
+            v, info = judge(gc, Uf, [0.0, 10.0], form=form)
+            ctx.tick(Uf.shape[1] * 3, ("form", form, gc["alt"]))
+            per = {}
+            for c, i, e, o, sv in v:
+                if per.get(c, 0) >= 3:
+                    continue
+                per[c] = per.get(c, 0) + 1
+                ctx.violation(c, {"gc": gc, "u": np.asarray(Uf, dtype=float).astype(form).astype(float)[:, i].tolist(), "s": sv, "alt": gc["alt"], "form": form}, e, o)
     for ci, gc in enumerate(cfgs):
         v, info = judge(gc, U, s_list)
         ctx.tick(U.shape[1] * (1 + len(s_list)))
@@ -282,5 +303,5 @@ def replay(case):
         return _history_replay(case)
     u = np.array(case["u"], dtype=np.float64).reshape(4, 1)
     s = case.get("s")
-    v, _ = judge(case["gc"], u, [s] if s is not None else [0.0])
+    v, _ = judge(case["gc"], u, [s] if s is not None else [0.0], form=case.get("form"))
     return [(c, e, o) for c, i, e, o, s2 in v]
